@@ -9,6 +9,14 @@ T_TOOLS = 'T10 Verus 0.2026.09.13, Z3, rustc; machine integers are checked (not 
 T_RPO = 'T4 RPO hash (miden-crypto hash_elements / merge_in_domain) uninterpreted; collision resistance NOT assumed'
 
 PROPS = {
+    'C05': {
+        'level': 'proof',
+        'units': ['stack'],
+        'kani': [],
+        'trusted_base': [T_FELT, T_TOOLS],
+        'not_decided': ['text->AST parser (assembly/src/ast/parsers): string handling outside both verifiers'],
+        'sample_obligations': ['C05/stack/Stack::shift_left#ensures: next_view[i] == (i+1 < depth ? view[i+1] : ZERO) for all i >= start_pos-1; depth\' = max(16, depth-1)'],
+    },
     'C08': {
         'level': 'proof',
         'units': ['span_batch', 'blocks_hash'],
